@@ -3,7 +3,8 @@
 //	rewrite <scratch repo copy> <dir holding simsync sources> mutex|pool|mutex,pool
 //
 // mutex (the C20 `sched` profile): every sync.Mutex / sync.RWMutex *type reference* in samlidp/*.go
-// (non-test files) becomes simsync.Mutex / simsync.RWMutex.
+// (non-test files) becomes simsync.Mutex / simsync.RWMutex, and every sync.Map becomes simsync.Map (its
+// operations, and each visit of a Range, become decision points of the scheduler).
 // pool (every profile, only when the tree under test uses sync.Pool at all): every sync.Pool type
 // reference in any non-test file becomes simsync.Pool, the simulator's allocator seam.
 package main
@@ -69,7 +70,7 @@ func main() {
 		}
 		names := map[string]bool{}
 		if modes["mutex"] && filepath.Base(filepath.Dir(f)) == "samlidp" {
-			names["Mutex"], names["RWMutex"] = true, true
+			names["Mutex"], names["RWMutex"], names["Map"] = true, true, true
 		}
 		if modes["pool"] {
 			names["Pool"] = true
